@@ -94,3 +94,11 @@ Proof.
     destruct (h_l2 h + 1 <? h_cur h); lia.
   - destruct (s_left x); [destruct Hin|]. destruct Hin as [<-|[]]. cbn. lia.
 Qed.
+
+(* ---------- every envelope produced opens at a receiver (C09 with C02) ---------- *)
+Lemma seqN_in from n i : (i < n)%nat -> In (from + N.of_nat i) (seqN from n).
+Proof.
+  revert from i. induction n as [|n IH]; intros from i H; [lia|].
+  cbn [seqN]. destruct i as [|i]; [left; lia|]. right.
+  replace (from + N.of_nat (S i)) with (from + 1 + N.of_nat i) by lia. apply IH. lia.
+Qed.
